@@ -543,3 +543,73 @@ def check_C06(tier, seed):
     # the same round trips through a harness built with sonic-rs's sort_keys feature
     generic_record_validate("C06", res, "sr-record", ["--seed", seed + 6, "--n", 2500 if tier == QUICK else 100000, "--mode", "rt"], "Trace_Ser", {}, "rt_sort_keys", features=("sort_keys",))
     return res.finish()
+
+
+def serde_behaviours():
+    d = wdir("beh")
+    path = os.path.join(d, "serde.ndjson")
+    stats_p = path + ".stats"
+    src = [os.path.join(vlib.TLA, f) for f in ("Serde.tla", "MC_Serde.tla", "Numbers.tla")]
+    stamp = "".join(str(os.path.getmtime(f)) for f in src)
+    if os.path.exists(path) and os.path.exists(stats_p):
+        st = json.load(open(stats_p))
+        if st.get("stamp") == stamp:
+            return path, st
+    st = tlc_mc("MC_Serde", {"EmitOn": "TRUE"}, emit_path=path, tag="MC_Serde", workers=8)
+    st["stamp"] = stamp
+    st.pop("log_tail", None)
+    json.dump(st, open(stats_p, "w"))
+    return path, st
+
+
+def split_model_errors(res, prefix):
+    """a trace line rejected only for "model" means the specification disagrees with serde_json: the model misrepresents
+    the contract, which is a tool error, never a violation"""
+    model = [v for v in res.violations if v.get("ep") in ('["model"]',)]
+    if model:
+        for v in model:
+            sys.stderr.write("MODEL-ERROR %s\n" % json.dumps(v.get("event"))[:600])
+        raise ToolError("%s: the Serde model disagrees with serde_json on %d recorded cases (see above); nothing was decided" % (prefix, len(model)))
+
+
+def check_C04(tier, seed):
+    res = Result("C04", tier, seed, "model_checking")
+    res.coverage["rule"] = ("TLC enumerates Shapes(T) (matching, near-matching and mismatching JSON values: scalar universe, one-step mutations of matching values, integer boundaries of every "
+                            "width incl. 128-bit, map-key spellings) for 44 registered Rust types with the verdict of Accepts(T, v); each pair is deserialized by sonic-rs (from_slice, from_str) "
+                            "and serde_json and compared for accept/reject and value equality; the specification's verdict is the third opinion (disagreement with serde_json = tool error). "
+                            "Recorded mutated texts per type are validated the same way by TLC")
+    beh, st = serde_behaviours()
+    exe = build_harness()
+    out = fresh("C04", "ty")
+    rc, o, err = run_vh(exe, ["ty-replay", "--beh", beh, "--out", out], inflight=os.path.join(out, "inflight"))
+    if rc != 0:
+        raise ToolError("ty-replay failed rc=%s %s" % (rc, err[-400:]))
+    summ = json.load(open(os.path.join(out, "summary.0.json")))
+    if summ["model_errors"]:
+        for m in summ["model_errors"][:10]:
+            sys.stderr.write("MODEL-ERROR %s\n" % json.dumps(m))
+        raise ToolError("the Serde model disagrees with serde_json on %d emitted cases; nothing was decided" % len(summ["model_errors"]))
+    for m in summ["mismatches"]:
+        res.add_mismatch(m)
+    c = res.coverage
+    c["states"] += st["distinct"]
+    c["transitions"] += st["states"]
+    c["evaluations"] += summ["cases"]
+    c["distinct_nontrivial"] += summ["accepted"]
+    c["traces_validated_against_impl"] += summ["cases"]
+    c["samples"] += summ["samples"][:3]
+    c.setdefault("replay", {})["ty"] = {k: summ[k] for k in ("cases", "accepted", "per_type")}
+    generic_record_validate("C04", res, "ty-record", ["--seed", seed, "--n", 6000 if tier == QUICK else 300000, "--mode", "de"], "Trace_Serde", {}, "de")
+    split_model_errors(res, "C04")
+    res.coverage["exhaustive"] = True
+    return res.finish()
+
+
+def check_C19(tier, seed):
+    res = Result("C19", tier, seed, "model_checking")
+    res.coverage["rule"] = ("arbitrary values of 43 registered types: to_string and to_value, from_str and from_value; TLC checks that the DOM produced by to_value is the denotation of the text "
+                            "(order-insensitive), both routes read back the original value, DOM equality with the parsed text holds in both argument orders; pairs of documents: equality is "
+                            "reflexive, symmetric and equals order-insensitive structural equality of the dumps")
+    generic_record_validate("C19", res, "ty-record", ["--seed", seed, "--n", 6000 if tier == QUICK else 300000, "--mode", "conv"], "Trace_Serde", {}, "conv")
+    generic_record_validate("C19", res, "ty-record", ["--seed", seed + 19, "--n", 4000 if tier == QUICK else 200000, "--mode", "eq"], "Trace_Serde", {}, "eq")
+    return res.finish()
